@@ -99,9 +99,14 @@ Qed.
 
 (* ------------------------------------------------------------- whole hub *)
 
+(* queued priority <= current deadline *)
+Definition qle (e : option (N * N)) : Prop :=
+  match e with Some (d, q) => q <= d | None => True end.
+
 Definition crel (h : hub) (a : aspec) (ch : N) : Prop :=
+  qle (h_exp h ch) /\ qle (h_rem h ch) /\
   match h_streams h ch, sp_chan a ch with
-  | None, None => h_removes h ch = None
+  | None, None => h_rem h ch = None
   | Some s, Some c =>
       srel s c /\ h_removes h ch = a_meta c /\
       (a_ret c <> [] -> h_expires h ch = Some (a_exp c))
@@ -132,20 +137,41 @@ Proof.
   - rewrite E, E2. replace (ex <=? sp_now a) with true by lia. reflexivity.
 Qed.
 
+Lemma set_deadline_at : forall m ch v,
+  set_deadline m ch v ch = Some (v, match m ch with Some (_, q) => q | None => v end).
+Proof. intros. unfold set_deadline, upd. rewrite N.eqb_refl. reflexivity. Qed.
+
+Lemma set_deadline_other : forall m ch v x, x <> ch -> set_deadline m ch v x = m x.
+Proof. intros. unfold set_deadline, upd. replace (x =? ch) with false by lia. reflexivity. Qed.
+
+Lemma qle_set : forall m ch v,
+  qle (m ch) -> dl_ok (option_map fst (m ch)) v = true -> qle (set_deadline m ch v ch).
+Proof.
+  intros m ch v Hq Hd. rewrite set_deadline_at. destruct (m ch) as [[d q]|]; cbn in *; lia.
+Qed.
+
+Lemma touch_meta_other : forall h ch m x, x <> ch -> touch_meta h ch m x = h_rem h x.
+Proof.
+  intros. unfold touch_meta. destruct (0 <? eff_meta h m); auto.
+  apply set_deadline_other; auto.
+Qed.
+
 Lemma touch_meta_at : forall h a ch m c,
   h_now h = sp_now a -> h_meta h = sp_meta a -> h_removes h ch = a_meta c ->
-  touch_meta h ch m ch = sp_touch a c m.
+  option_map fst (touch_meta h ch m ch) = sp_touch a c m.
 Proof.
-  intros h a ch m c HN HM HR. unfold touch_meta, sp_touch, eff_meta, now_s, sp_now_s, secs, upd.
+  intros h a ch m c HN HM HR. unfold touch_meta, sp_touch, eff_meta, now_s, sp_now_s, secs.
   rewrite HM, HN. destruct (0 <? (if m =? 0 then sp_meta a else m)).
-  - rewrite N.eqb_refl. reflexivity.
+  - rewrite set_deadline_at. reflexivity.
   - exact HR.
 Qed.
 
-Lemma touch_meta_other : forall h ch m x, x <> ch -> touch_meta h ch m x = h_removes h x.
+Lemma touch_meta_qle : forall h ch m,
+  qle (h_rem h ch) -> meta_ok h ch m = true -> qle (touch_meta h ch m ch).
 Proof.
-  intros. unfold touch_meta, upd. destruct (0 <? eff_meta h m); auto.
-  replace (x =? ch) with false by lia. reflexivity.
+  intros h ch m Hq Hm. unfold touch_meta, meta_ok in *.
+  destruct (0 <? eff_meta h m); auto.
+  apply qle_set; auto.
 Qed.
 
 Lemma save_rel : forall h a ch o pos,
@@ -153,25 +179,54 @@ Lemma save_rel : forall h a ch o pos,
 Proof.
   intros h a ch o pos (HC & HK & HN & HF & HM).
   unfold save_if_keyed, sp_save. destruct (po_key o =? 0).
-  - repeat split; auto.
-  - unfold R, cache_save, crel, cache_rel. cbn.
-    repeat split; auto.
-    intros c k. destruct ((c =? ch) && (k =? po_key o)).
-    + left. rewrite HN. reflexivity.
-    + apply HK.
+  - split; [exact HC|split; [exact HK|repeat split; auto]].
+  - unfold R, cache_save. cbn [h_cache h_now h_fresh h_meta sp_cache sp_now sp_fresh sp_meta sp_chan].
+    split; [|split; [|auto]].
+    + intros x. exact (HC x).
+    + intros c k. cbn [h_cache sp_cache]. destruct ((c =? ch) && (k =? po_key o)).
+      * left. rewrite HN. reflexivity.
+      * apply HK.
 Qed.
 
-Ltac unfold_R := unfold R, crel, cache_rel in *.
+Lemma sweep1_qle : forall now e, qle e -> qle (snd (sweep1 now e)).
+Proof.
+  intros now [[d q]|] H; cbn [sweep1]; auto.
+  destruct (q <=? now); [destruct (d <=? now)|]; cbn [snd qle]; auto. lia.
+Qed.
 
-Lemma eqb_neq_false : forall x y : N, x <> y -> (x =? y) = false.
-Proof. intros. lia. Qed.
+Lemma sweep1_fires : forall now e, qle e ->
+  fst (sweep1 now e) = match e with Some (d, _) => d <=? now | None => false end.
+Proof.
+  intros now [[d q]|] H; cbn [sweep1 fst]; auto. cbn [qle] in H.
+  destruct (q <=? now) eqn:E1; [destruct (d <=? now) eqn:E2|]; cbn [fst]; auto. lia.
+Qed.
+
+Lemma sweep1_keeps : forall now e,
+  fst (sweep1 now e) = false -> option_map fst (snd (sweep1 now e)) = option_map fst e.
+Proof.
+  intros now [[d q]|]; cbn [sweep1]; auto.
+  destruct (q <=? now); [destruct (d <=? now)|]; cbn [fst snd option_map]; auto. discriminate.
+Qed.
+
+Lemma sweep1_fired : forall now e, fst (sweep1 now e) = true -> snd (sweep1 now e) = None.
+Proof.
+  intros now [[d q]|]; cbn [sweep1]; auto.
+  destruct (q <=? now); [destruct (d <=? now)|]; cbn [fst snd]; auto; discriminate.
+Qed.
+
+Lemma srel_clear_empty : forall s c, srel s c -> a_ret c = [] -> srel (s_clear s) c.
+Proof.
+  intros s c (Q1 & Q2 & Q3 & Q4 & Q5 & Q6) ER.
+  unfold srel, s_clear, aitems, a_lo. cbn [s_top s_items s_epoch s_ver s_vep].
+  rewrite ER. cbn [number]. repeat split; auto. rewrite ER in Q5. exact Q5.
+Qed.
 
 Lemma step_sim : forall h a o,
-  R h a ->
+  R h a -> mono_ok h o = true ->
   R (fst (step h o)) (fst (sp_step a o)) /\
   (op_ok o = true -> snd (step h o) = snd (sp_step a o)).
 Proof.
-  intros h a o HR.
+  intros h a o HR Hmono.
   destruct o as [ch id po | ch f meta | ch | d | | | ]; cbn [step step_with sp_step op_ok].
   - (* Publish *)
     unfold publish, publish_with, sp_publish.
@@ -179,9 +234,35 @@ Proof.
     rewrite (cache_get_rel h a ch (po_key po) HK HN).
     destruct (if po_key po =? 0 then None else sp_cache_get a ch (po_key po)) as [[off ep]|].
     { cbn [fst snd]. split; auto. }
+    cbn [mono_ok] in Hmono.
     destruct (history_on po).
     2:{ cbn [fst snd]. split; auto. apply save_rel; auto. }
+    cbn [negb orb] in Hmono. apply andb_true_iff in Hmono. destruct Hmono as [Hm1 Hm2].
     unfold hub_add. pose proof (HC ch) as Hch. unfold crel in Hch.
+    destruct Hch as (Hq1 & Hq2 & Hch).
+    assert (BOOK : forall s' c' fresh,
+      srel s' c' -> a_meta c' = sp_touch a
+         (match sp_chan a ch with Some c => c | None => mkAchan (sp_fresh a) 0 [] 0 None 0 0 end)
+         (po_meta po) ->
+      a_exp c' = sp_now_s a + po_ttl po / 1000 ->
+      h_removes h ch = a_meta (match sp_chan a ch with Some c => c | None => mkAchan (sp_fresh a) 0 [] 0 None 0 0 end) ->
+      R (book h ch po (upd (h_streams h) ch (Some s')) fresh)
+        (sp_set a ch (Some c') fresh)).
+    { intros s' c' fresh Hs' Hmeta Hexp Hrm0.
+      unfold R, book, sp_set.
+      cbn [h_streams h_exp h_rem h_cache h_now h_fresh h_meta sp_chan sp_cache sp_now sp_fresh sp_meta].
+      split; [|split; [exact HK|repeat split; auto]].
+      intros x. unfold crel, h_removes, h_expires.
+      cbn [h_streams h_exp h_rem sp_chan]. unfold upd at 1.
+      destruct (x =? ch) eqn:Ex.
+      - assert (x = ch) by lia. subst x.
+        split; [apply qle_set; auto|]. split; [apply touch_meta_qle; auto|].
+        split; [exact Hs'|]. split.
+        + rewrite Hmeta. apply touch_meta_at; auto.
+        + intros _. rewrite set_deadline_at. cbn [option_map fst].
+          rewrite Hexp. unfold now_s, sp_now_s, secs. rewrite HN. reflexivity.
+      - assert (x <> ch) by lia.
+        rewrite set_deadline_other, touch_meta_other by auto. apply (HC x). }
     destruct (h_streams h ch) as [s|] eqn:ES; destruct (sp_chan a ch) as [c|] eqn:EC; try tauto.
     + destruct Hch as (Hs & Hrm & Hex).
       assert (Hsk : ver_skip s po = holds_version c po).
@@ -191,21 +272,12 @@ Proof.
       * cbn [fst snd].
         pose proof (srel_add s c id (Z.to_nat (po_size po)) (po_ver po) (po_vep po)
                      (sp_now_s a + po_ttl po / 1000) (sp_touch a c (po_meta po)) Hs) as Hadd.
-        assert (T12 := Hadd). unfold srel in T12. destruct T12 as (T1 & T2 & _). cbn [a_top a_epoch] in T1, T2.
+        assert (T12 := Hadd). unfold srel in T12. destruct T12 as (T1 & T2 & _).
+        cbn [a_top a_epoch] in T1, T2.
         split.
         2:{ intros _. rewrite T1, T2. reflexivity. }
-        rewrite T1, T2.
-        apply save_rel.
-        unfold R. cbn [h_streams h_expires h_removes h_cache h_now h_fresh h_meta
-                       sp_set sp_chan sp_cache sp_now sp_fresh sp_meta].
-        repeat split; auto.
-        intros x. unfold crel, sp_set. cbn [h_streams h_expires h_removes sp_chan]. unfold upd at 1 2.
-        destruct (x =? ch) eqn:Ex.
-        -- assert (x = ch) by lia. subst x.
-           split; [apply srel_add; exact Hs|]. cbn [a_meta a_ret a_exp]. split.
-           ++ apply touch_meta_at; auto.
-           ++ intros _. unfold now_s, sp_now_s, secs. rewrite HN. reflexivity.
-        -- assert (x <> ch) by lia. rewrite touch_meta_other by auto. apply (HC x).
+        rewrite T1, T2, HF.
+        apply save_rel. apply BOOK; auto.
     + cbn [fst snd].
       pose proof (srel_add (s_new (h_fresh h)) (mkAchan (sp_fresh a) 0 [] 0 None 0 0) id
                    (Z.to_nat (po_size po)) (po_ver po) (po_vep po)
@@ -216,137 +288,156 @@ Proof.
       replace ((0 <? po_ver po) && ((po_vep po =? 0) || (po_vep po =? 0)) && (po_ver po <=? 0))
         with false by lia.
       cbn [fst snd]. rewrite HF.
-      assert (T12 := Hadd). unfold srel in T12. destruct T12 as (T1 & T2 & _). cbn [a_top a_epoch] in T1, T2.
+      assert (T12 := Hadd). unfold srel in T12. destruct T12 as (T1 & T2 & _).
+      cbn [a_top a_epoch] in T1, T2.
       split.
       2:{ intros _. rewrite T1, T2. reflexivity. }
       rewrite T1, T2.
-      apply save_rel.
-      unfold R. cbn [h_streams h_expires h_removes h_cache h_now h_fresh h_meta
-                     sp_set sp_chan sp_cache sp_now sp_fresh sp_meta].
-      repeat split; auto; try lia.
-      intros x. unfold crel, sp_set. cbn [h_streams h_expires h_removes sp_chan]. unfold upd at 1 2.
-      destruct (x =? ch) eqn:Ex.
-      * assert (x = ch) by lia. subst x.
-        split; [exact Hadd|]. cbn [a_meta a_ret a_exp]. split.
-        -- apply touch_meta_at; auto.
-        -- intros _. unfold now_s, sp_now_s, secs. rewrite HN. reflexivity.
-      * assert (x <> ch) by lia. rewrite touch_meta_other by auto. apply (HC x).
+      apply save_rel. apply BOOK; auto.
+      cbn [a_meta]. unfold h_removes. rewrite Hch. reflexivity.
   - (* History *)
     unfold hub_get, sp_history.
     pose proof HR as (HC & HK & HN & HF & HM).
-    pose proof (HC ch) as Hch. unfold crel in Hch.
+    cbn [mono_ok] in Hmono.
+    pose proof (HC ch) as Hch. unfold crel in Hch. destruct Hch as (Hq1 & Hq2 & Hch).
+    assert (GET : forall s' c' fresh,
+      srel s' c' -> a_meta c' = sp_touch a
+         (match sp_chan a ch with Some c => c | None => mkAchan (sp_fresh a) 0 [] 0 None 0 0 end) meta ->
+      h_removes h ch = a_meta (match sp_chan a ch with Some c => c | None => mkAchan (sp_fresh a) 0 [] 0 None 0 0 end) ->
+      (a_ret c' <> [] -> h_expires h ch = Some (a_exp c')) ->
+      forall streams', streams' ch = Some s' -> (forall x, x <> ch -> streams' x = h_streams h x) ->
+      R (mkHub streams' (h_exp h) (touch_meta h ch meta) (h_cache h) (h_now h) fresh (h_meta h))
+        (sp_set a ch (Some c') fresh)).
+    { intros s' c' fresh Hs' Hmeta Hrm0 Hex' streams' Hst1 Hst2.
+      unfold R, sp_set.
+      cbn [h_streams h_exp h_rem h_cache h_now h_fresh h_meta sp_chan sp_cache sp_now sp_fresh sp_meta].
+      split; [|split; [exact HK|repeat split; auto]].
+      intros x. unfold crel, h_removes, h_expires.
+      cbn [h_streams h_exp h_rem sp_chan].
+      destruct (x =? ch) eqn:Ex.
+      - assert (x = ch) by lia. subst x. rewrite Hst1.
+        split; [exact Hq1|]. split; [apply touch_meta_qle; auto|].
+        split; [exact Hs'|]. split.
+        + rewrite Hmeta. apply touch_meta_at; auto.
+        + exact Hex'.
+      - assert (x <> ch) by lia.
+        rewrite touch_meta_other, Hst2 by auto. apply (HC x). }
     destruct (h_streams h ch) as [s|] eqn:ES; destruct (sp_chan a ch) as [c|] eqn:EC; try tauto.
     + destruct Hch as (Hs & Hrm & Hex). cbn [fst snd]. split.
-      * unfold R. cbn [h_streams h_expires h_removes h_cache h_now h_fresh h_meta
-                       sp_set sp_chan sp_cache sp_now sp_fresh sp_meta].
-        repeat split; auto.
-        intros x. unfold crel, sp_set. cbn [h_streams h_expires h_removes sp_chan].
-        destruct (x =? ch) eqn:Ex.
-        -- assert (x = ch) by lia. subst x. rewrite ES.
-           split; [exact Hs|]. cbn [with_meta a_meta a_ret a_exp]. split; auto.
-           apply touch_meta_at; auto.
-        -- assert (x <> ch) by lia. rewrite touch_meta_other by auto. apply (HC x).
+      * rewrite HF. apply (GET s); auto.
       * intros Hok. pose proof (srel_get s c f Hs Hok) as G. unfold get_items in G.
         rewrite G. destruct Hs as (-> & -> & _). reflexivity.
     + cbn [fst snd]. rewrite HF. split; auto.
-      unfold R. cbn [h_streams h_expires h_removes h_cache h_now h_fresh h_meta
-                     sp_set sp_chan sp_cache sp_now sp_fresh sp_meta].
-      repeat split; auto; try lia.
-      intros x. unfold crel, sp_set. cbn [h_streams h_expires h_removes sp_chan]. unfold upd.
-      destruct (x =? ch) eqn:Ex.
-      * assert (x = ch) by lia. subst x.
-        split; [apply srel_new|]. cbn [with_meta a_meta a_ret a_exp a_epoch a_top a_ver a_vep].
-        split; [|tauto].
-        apply touch_meta_at; auto.
-      * assert (x <> ch) by lia. rewrite touch_meta_other by auto. apply (HC x).
+      apply (GET (s_new (sp_fresh a))); auto.
+      * apply srel_new.
+      * cbn [a_meta]. unfold h_removes. rewrite Hch. reflexivity.
+      * cbn [with_meta a_ret]. tauto.
+      * unfold upd. rewrite N.eqb_refl. reflexivity.
+      * intros x Hx. unfold upd. replace (x =? ch) with false by lia. reflexivity.
   - (* Remove *)
     cbn [fst snd]. split; auto.
     unfold hub_remove.
     pose proof HR as (HC & HK & HN & HF & HM).
-    pose proof (HC ch) as Hch. unfold crel in Hch.
+    pose proof (HC ch) as Hch. unfold crel in Hch. destruct Hch as (Hq1 & Hq2 & Hch).
     destruct (h_streams h ch) as [s|] eqn:ES; destruct (sp_chan a ch) as [c|] eqn:EC; try tauto.
     destruct Hch as (Hs & Hrm & Hex).
-    unfold R. cbn [h_streams h_expires h_removes h_cache h_now h_fresh h_meta
-                   sp_set sp_chan sp_cache sp_now sp_fresh sp_meta].
-    repeat split; auto.
-    intros x. unfold crel, sp_set. cbn [h_streams h_expires h_removes sp_chan]. unfold upd.
+    unfold R, sp_set.
+    cbn [h_streams h_exp h_rem h_cache h_now h_fresh h_meta sp_chan sp_cache sp_now sp_fresh sp_meta].
+    split; [|split; [exact HK|repeat split; auto]].
+    intros x. unfold crel, h_removes, h_expires. cbn [h_streams h_exp h_rem sp_chan]. unfold upd.
     destruct (x =? ch) eqn:Ex.
     + assert (x = ch) by lia. subst x.
-      split; [apply srel_clear; exact Hs|]. cbn [with_ret a_meta a_ret]. split; auto; tauto.
+      split; [exact Hq1|]. split; [exact Hq2|].
+      split; [apply srel_clear; exact Hs|]. cbn [with_ret a_meta a_ret]. split; [exact Hrm|].
+      intros X; congruence.
     + apply (HC x).
   - (* Advance *)
     cbn [fst snd]. split; auto.
     destruct HR as (HC & HK & HN & HF & HM).
-    unfold R, advance. cbn [h_streams h_expires h_removes h_cache h_now h_fresh h_meta
+    unfold R, advance. cbn [h_streams h_exp h_rem h_cache h_now h_fresh h_meta
                             sp_chan sp_cache sp_now sp_fresh sp_meta].
-    repeat split; auto; try lia.
-    intros c k. destruct (HK c k) as [E | (E & off & ep & ex & E2 & L)]; [left; exact E|].
-    right. split; auto. exists off, ep, ex. split; auto. cbn [sp_now]. lia.
+    split; [|split; [|repeat split; auto; lia]].
+    + intros x. exact (HC x).
+    + intros c k. cbn [h_cache sp_cache sp_now].
+      destruct (HK c k) as [E | (E & off & ep & ex & E2 & L)]; [left; exact E|].
+      right. split; auto. exists off, ep, ex. split; auto. lia.
   - (* SweepExpire *)
     cbn [fst snd]. split; auto.
     destruct HR as (HC & HK & HN & HF & HM).
-    unfold R, sweep_expire. cbn [h_streams h_expires h_removes h_cache h_now h_fresh h_meta
+    unfold R, sweep_expire. cbn [h_streams h_exp h_rem h_cache h_now h_fresh h_meta
                                  sp_chan sp_cache sp_now sp_fresh sp_meta].
-    repeat split; auto.
-    intros x. pose proof (HC x) as Hx. unfold crel in *.
-    cbn [h_streams h_expires h_removes sp_chan].
+    split; [|split; [exact HK|repeat split; auto]].
+    intros x. pose proof (HC x) as Hx. unfold crel in *. destruct Hx as (Hq1 & Hq2 & Hx).
+    unfold h_removes, h_expires in *. cbn [h_streams h_exp h_rem sp_chan].
+    split; [apply sweep1_qle; auto|]. split; [exact Hq2|].
+    rewrite (sweep1_fires _ _ Hq1).
+    pose proof (sweep1_keeps (now_s h) (h_exp h x)) as KEEP.
+    pose proof (sweep1_fired (now_s h) (h_exp h x)) as FIRED.
+    rewrite (sweep1_fires _ _ Hq1) in KEEP, FIRED.
     destruct (h_streams h x) as [s|] eqn:ES; destruct (sp_chan a x) as [c|] eqn:EC; try tauto.
     + destruct Hx as (Hs & Hrm & Hex).
       destruct (a_ret c) as [|r0 rs] eqn:ER.
-      * assert (Q : srel (s_clear s) c).
-        { destruct Hs as (Q1 & Q2 & Q3 & Q4 & Q5 & Q6).
-          unfold srel, s_clear, aitems, a_lo. cbn [s_top s_items s_epoch s_ver s_vep].
-          rewrite ER. cbn [number]. repeat split; auto. rewrite ER in Q5. exact Q5. }
-        destruct (due h (h_expires h x)).
-        -- split; [exact Q|]. split; [exact Hrm|]. intros X; congruence.
+      * destruct (match h_exp h x with Some (d, _) => d <=? now_s h | None => false end).
+        -- split; [apply srel_clear_empty; auto|]. split; [exact Hrm|]. intros X; congruence.
         -- split; [exact Hs|]. split; [exact Hrm|]. intros X; congruence.
-      * rewrite Hex by congruence. unfold due, sp_due, now_s, sp_now_s. rewrite HN.
+      * assert (Hex' : option_map fst (h_exp h x) = Some (a_exp c)) by (apply Hex; congruence).
+        destruct (h_exp h x) as [[d q]|]; cbn [option_map fst] in Hex'; [|discriminate].
+        inversion Hex'; subst d. unfold sp_due, now_s, sp_now_s in *. rewrite HN in *.
         destruct (a_exp c <=? sp_now a / 1000).
-        -- split; [apply srel_clear; exact Hs|]. cbn [with_ret a_meta a_ret]. split; [exact Hrm|]. intros X; congruence.
-        -- split; [exact Hs|]. split; [exact Hrm|]. intros _. reflexivity.
-    + destruct (due h (h_expires h x)); auto.
+        -- split; [apply srel_clear; exact Hs|]. cbn [with_ret a_meta a_ret]. split; [exact Hrm|].
+           intros X; congruence.
+        -- split; [exact Hs|]. split; [exact Hrm|]. intros _. rewrite KEEP by reflexivity. reflexivity.
+    + destruct (match h_exp h x with Some (d, _) => d <=? now_s h | None => false end); exact Hx.
   - (* SweepRemove *)
     cbn [fst snd]. split; auto.
     destruct HR as (HC & HK & HN & HF & HM).
-    unfold R, sweep_remove. cbn [h_streams h_expires h_removes h_cache h_now h_fresh h_meta
+    unfold R, sweep_remove. cbn [h_streams h_exp h_rem h_cache h_now h_fresh h_meta
                                  sp_chan sp_cache sp_now sp_fresh sp_meta].
-    repeat split; auto.
-    intros x. pose proof (HC x) as Hx. unfold crel in *.
-    cbn [h_streams h_expires h_removes sp_chan].
+    split; [|split; [exact HK|repeat split; auto]].
+    intros x. pose proof (HC x) as Hx. unfold crel in *. destruct Hx as (Hq1 & Hq2 & Hx).
+    unfold h_removes, h_expires in *. cbn [h_streams h_exp h_rem sp_chan].
+    split; [exact Hq1|]. split; [apply sweep1_qle; auto|].
+    rewrite (sweep1_fires _ _ Hq2).
+    pose proof (sweep1_keeps (now_s h) (h_rem h x)) as KEEP.
+    pose proof (sweep1_fired (now_s h) (h_rem h x)) as FIRED.
+    rewrite (sweep1_fires _ _ Hq2) in KEEP, FIRED.
     destruct (h_streams h x) as [s|] eqn:ES; destruct (sp_chan a x) as [c|] eqn:EC; try tauto.
-    + destruct Hx as (Hs & Hrm & Hex). rewrite Hrm.
-      destruct (a_meta c) as [d|] eqn:EM; cbn [due].
-      * unfold sp_due, now_s, sp_now_s. rewrite HN.
-        destruct (d <=? sp_now a / 1000);
-          [reflexivity | split; [exact Hs|split; [congruence|exact Hex]]].
-      * split; [exact Hs|]. split; [congruence|exact Hex].
-    + rewrite Hx. cbn [due]. reflexivity.
+    + destruct Hx as (Hs & Hrm & Hex).
+      destruct (h_rem h x) as [[d q]|] eqn:ERM; cbn [option_map fst] in Hrm.
+      * rewrite <- Hrm. unfold sp_due, now_s, sp_now_s in *. rewrite HN in *.
+        destruct (d <=? sp_now a / 1000).
+        -- apply FIRED. reflexivity.
+        -- split; [exact Hs|]. split; [|exact Hex]. rewrite KEEP by reflexivity. exact Hrm.
+      * rewrite <- Hrm. split; [exact Hs|]. split; [|exact Hex]. cbn. exact Hrm.
+    + rewrite Hx. cbn [sweep1 snd]. reflexivity.
   - (* SweepCache *)
     cbn [fst snd]. split; auto.
     destruct HR as (HC & HK & HN & HF & HM).
-    unfold R, sweep_cache. cbn [h_streams h_expires h_removes h_cache h_now h_fresh h_meta].
-    repeat split; auto.
-    intros c k. cbn [h_cache].
-    destruct (HK c k) as [E | (E & off & ep & ex & E2 & L)].
-    + rewrite E. destruct (sp_cache a c k) as [[[off ep] ex]|]; auto.
-      destruct (ex <=? h_now h) eqn:EX; auto.
-      right. split; auto. exists off, ep, ex. split; auto. lia.
-    + rewrite E. right. split; auto. exists off, ep, ex. auto.
+    unfold R, sweep_cache. cbn [h_streams h_exp h_rem h_cache h_now h_fresh h_meta].
+    split; [|split; [|repeat split; auto]].
+    + intros x. exact (HC x).
+    + intros c k. cbn [h_cache].
+      destruct (HK c k) as [E | (E & off & ep & ex & E2 & L)].
+      * rewrite E. destruct (sp_cache a c k) as [[[off ep] ex]|]; auto.
+        destruct (ex <=? h_now h) eqn:EX; auto.
+        right. split; auto. exists off, ep, ex. split; auto. lia.
+      * rewrite E. right. split; auto. exists off, ep, ex. auto.
 Qed.
 
 Definition ops_ok (ops : list op) : bool := forallb op_ok ops.
 
 Lemma run_sim : forall ops h a,
-  R h a -> ops_ok ops = true ->
+  R h a -> run_mono h ops = true -> ops_ok ops = true ->
   R (fst (run h ops)) (fst (sp_run a ops)) /\ snd (run h ops) = snd (sp_run a ops).
 Proof.
   unfold run.
-  induction ops as [|o r IH]; intros h a HR Hok; cbn [run_with sp_run].
+  induction ops as [|o r IH]; intros h a HR Hm Hok; cbn [run_with sp_run].
   - cbn [fst snd]. auto.
   - cbn [ops_ok forallb] in Hok. apply andb_true_iff in Hok. destruct Hok as [Ho Hr].
-    pose proof (step_sim h a o HR) as (HR1 & Hout). specialize (Hout Ho).
+    cbn [run_mono] in Hm. apply andb_true_iff in Hm. destruct Hm as [Hm1 Hm2].
+    pose proof (step_sim h a o HR Hm1) as (HR1 & Hout). specialize (Hout Ho).
     destruct (step h o) as [h1 x]. destruct (sp_step a o) as [a1 y]. cbn [fst snd] in *.
-    specialize (IH h1 a1 HR1 Hr).
+    specialize (IH h1 a1 HR1 Hm2 Hr).
     destruct (run_with step h1 r) as [h2 xs]. destruct (sp_run a1 r) as [a2 ys].
     cbn [fst snd] in *. destruct IH as (IH1 & IH2). split; auto. congruence.
 Qed.
@@ -355,25 +446,13 @@ Qed.
    the memory broker produces exactly the outputs of the bounded-stream
    specification. *)
 Theorem refines : forall now meta ops,
-  ops_ok ops = true ->
+  run_mono (hub_init now meta) ops = true -> ops_ok ops = true ->
   snd (run (hub_init now meta) ops) = snd (sp_run (spec_init now meta) ops).
 Proof.
   intros. apply run_sim; auto. apply R_init.
 Qed.
 
 (* ------------------------------------------------- named corollaries (C17) *)
-
-Lemma run_R : forall ops h a, R h a -> R (fst (run h ops)) (fst (sp_run a ops)).
-Proof.
-  unfold run.
-  induction ops as [|o r IH]; intros h a HR; cbn [run_with sp_run].
-  - cbn [fst]. auto.
-  - pose proof (step_sim h a o HR) as (HR1 & _).
-    destruct (step h o) as [h1 x]. destruct (sp_step a o) as [a1 y]. cbn [fst snd] in *.
-    specialize (IH h1 a1 HR1).
-    destruct (run_with step h1 r) as [h2 xs]. destruct (sp_run a1 r) as [a2 ys].
-    cbn [fst] in *. exact IH.
-Qed.
 
 Definition reachable (h : hub) : Prop :=
   exists now meta ops, h = fst (run (hub_init now meta) ops).
@@ -384,6 +463,9 @@ Definition wf_stream (s : stream) : Prop :=
   N.of_nat (length (s_items s)) <= s_top s /\
   s_items s = number (s_top s - N.of_nat (length (s_items s))) (map i_id (s_items s)).
 
+Definition achan_of (s : stream) : achan :=
+  mkAchan (s_epoch s) (s_top s) (map i_id (s_items s)) 0 None (s_ver s) (s_vep s).
+
 Lemma srel_wf : forall s c, srel s c -> wf_stream s.
 Proof.
   intros s c (H1 & _ & _ & _ & H5 & H6). unfold wf_stream.
@@ -391,12 +473,87 @@ Proof.
   split; [exact H5|]. unfold a_lo. reflexivity.
 Qed.
 
-Lemma reachable_wf : forall h ch s, reachable h -> h_streams h ch = Some s -> wf_stream s.
+Lemma wf_srel : forall s, wf_stream s -> srel s (achan_of s).
 Proof.
-  intros h ch s (now & meta & ops & ->) Hs.
-  pose proof (run_R ops _ _ (R_init now meta)) as (HC & _).
-  specialize (HC ch). unfold crel in HC. rewrite Hs in HC.
-  destruct (sp_chan _ ch); [|tauto]. destruct HC as (Hrel & _). eapply srel_wf; eauto.
+  intros s (H1 & H2). unfold srel, achan_of, aitems, a_lo.
+  cbn [a_top a_epoch a_ver a_vep a_ret]. rewrite map_length. repeat split; auto.
+Qed.
+
+Definition wf_hub (h : hub) : Prop := forall ch s, h_streams h ch = Some s -> wf_stream s.
+
+Lemma save_streams : forall h c po pos,
+  h_streams (save_if_keyed h c po pos) = h_streams h /\
+  h_fresh (save_if_keyed h c po pos) = h_fresh h.
+Proof. intros. unfold save_if_keyed, cache_save. destruct (po_key po =? 0); split; reflexivity. Qed.
+
+Lemma wf_new : forall e, wf_stream (s_new e).
+Proof. intros. eapply srel_wf. apply (srel_new e 0 None). Qed.
+
+Lemma wf_add : forall s id size ver vep, wf_stream s -> wf_stream (s_add s id size ver vep).
+Proof.
+  intros. eapply srel_wf. apply (srel_add s (achan_of s) id size ver vep 0 None). apply wf_srel; auto.
+Qed.
+
+Lemma wf_clear : forall s, wf_stream s -> wf_stream (s_clear s).
+Proof. intros. eapply srel_wf. apply srel_clear. apply wf_srel; eauto. Qed.
+
+Lemma wf_step : forall h o, wf_hub h -> wf_hub (fst (step h o)).
+Proof.
+  intros h o HB ch s.
+  destruct o as [c id po | c f meta | c | d | | | ]; cbn [step step_with fst].
+  - unfold publish, publish_with.
+    destruct (if po_key po =? 0 then None else cache_get h c (po_key po)) as [[? ?]|].
+    { cbn [fst]. apply HB. }
+    destruct (history_on po).
+    2:{ cbn [fst]. destruct (save_streams h c po (0, 0)) as (-> & _). apply HB. }
+    unfold hub_add.
+    destruct (h_streams h c) as [s0|] eqn:E0.
+    + destruct (ver_skip s0 po); cbn [fst]; [apply HB|].
+      match goal with |- context [save_if_keyed ?H c po ?P] => destruct (save_streams H c po P) as (-> & _) end.
+      cbn [book h_streams]. unfold upd. destruct (ch =? c) eqn:E.
+      * assert (ch = c) by lia. subst c. intros X; inversion X; subst s.
+        apply wf_add. eapply HB; eauto.
+      * apply HB.
+    + cbn [fst].
+      match goal with |- context [save_if_keyed ?H c po ?P] => destruct (save_streams H c po P) as (-> & _) end.
+      cbn [book h_streams]. unfold upd. destruct (ch =? c) eqn:E.
+      * intros X; inversion X; subst s. apply wf_add. apply wf_new.
+      * apply HB.
+  - unfold hub_get. destruct (h_streams h c) as [s0|] eqn:E0; cbn [fst h_streams].
+    + apply HB.
+    + unfold upd. destruct (ch =? c) eqn:E.
+      * intros X; inversion X; subst s. apply wf_new.
+      * apply HB.
+  - unfold hub_remove. destruct (h_streams h c) as [s0|] eqn:E0; cbn [h_streams]; [|apply HB].
+    unfold upd. destruct (ch =? c) eqn:E.
+    + assert (ch = c) by lia. subst c. intros X; inversion X; subst s.
+      apply wf_clear. eapply HB; eauto.
+    + apply HB.
+  - cbn [advance h_streams]. apply HB.
+  - cbn [sweep_expire h_streams].
+    destruct (fst (sweep1 (now_s h) (h_exp h ch))); [|apply HB].
+    destruct (h_streams h ch) as [s0|] eqn:E0; [|discriminate].
+    intros X; inversion X; subst s. apply wf_clear. eapply HB; eauto.
+  - cbn [sweep_remove h_streams].
+    destruct (fst (sweep1 (now_s h) (h_rem h ch))); [discriminate|apply HB].
+  - cbn [sweep_cache h_streams]. apply HB.
+Qed.
+
+Lemma run_inv : forall (P : hub -> Prop),
+  (forall h o, P h -> P (fst (step h o))) ->
+  forall ops h, P h -> P (fst (run h ops)).
+Proof.
+  intros P HP. unfold run. induction ops as [|o r IH]; intros h H0; cbn [run_with].
+  - exact H0.
+  - pose proof (HP h o H0) as H1.
+    destruct (step h o) as [h1 x]. cbn [fst] in H1. specialize (IH h1 H1).
+    destruct (run_with step h1 r) as [h2 xs]. exact IH.
+Qed.
+
+Lemma reachable_wf : forall h, reachable h -> wf_hub h.
+Proof.
+  intros h (now & meta & ops & ->). apply (run_inv wf_hub wf_step).
+  intros ch s X. cbn in X. discriminate.
 Qed.
 
 Definition top_of (h : hub) (ch : N) : N :=
@@ -420,46 +577,24 @@ Proof.
   unfold publish, publish_with in HP. rewrite Hon in HP.
   destruct (if po_key o =? 0 then None else cache_get h ch (po_key o)) as [[? ?]|]; [discriminate|].
   unfold hub_add, top_of, epoch_of, items_of in *.
+  assert (TRIM : forall l n it, (0 < n)%nat -> exists rest, trim n (l ++ [it]) = rest ++ [it]).
+  { intros l n it Hn. unfold trim. rewrite skipn_app.
+    match goal with |- context [skipn ?k [_]] => replace k with 0%nat by (rewrite app_length; cbn [length]; lia) end.
+    cbn [skipn]. eexists; reflexivity. }
+  assert (Hsz : (0 < Z.to_nat (po_size o))%nat) by (unfold history_on in Hon; lia).
   destruct (h_streams h ch) as [s|] eqn:ES.
   - destruct (ver_skip s o); [discriminate|].
     inversion HP; subst; clear HP.
-    assert (HS : forall pos, h_streams (save_if_keyed
-               {| h_streams := upd (h_streams h) ch (Some (s_add s id (Z.to_nat (po_size o)) (po_ver o) (po_vep o)));
-                  h_expires := upd (h_expires h) ch (Some (now_s h + secs (po_ttl o)));
-                  h_removes := touch_meta h ch (po_meta o); h_cache := h_cache h; h_now := h_now h;
-                  h_fresh := h_fresh h; h_meta := h_meta h |} ch o pos) ch
-              = Some (s_add s id (Z.to_nat (po_size o)) (po_ver o) (po_vep o))).
-    { intros. unfold save_if_keyed, cache_save. destruct (po_key o =? 0); cbn [h_streams];
-        unfold upd; rewrite N.eqb_refl; reflexivity. }
-    rewrite HS. cbn [s_add s_top s_epoch s_items].
-    repeat split; auto.
-    + intros e He. inversion He; auto.
-    + intros; discriminate.
-    + unfold trim.
-      set (l := s_items s ++ [mkItem (s_top s + 1) id]).
-      destruct (Z.to_nat (po_size o)) as [|n] eqn:En.
-      { unfold history_on in Hon. lia. }
-      assert (Hl : (length l - S n <= length (s_items s))%nat).
-      { unfold l. rewrite app_length. cbn [length]. lia. }
-      unfold l in *. rewrite skipn_app.
-      match goal with |- context [skipn ?k [_]] => replace k with 0%nat by lia end.
-      cbn [skipn]. eexists; reflexivity.
+    match goal with |- context [save_if_keyed ?H ch o ?P] => destruct (save_streams H ch o P) as (-> & _) end.
+    cbn [book h_streams]. unfold upd. rewrite N.eqb_refl.
+    cbn [s_add s_top s_epoch s_items].
+    repeat split; auto; try (intros; discriminate);
+      try (intros e He; inversion He; auto); try (apply TRIM; auto).
   - inversion HP; subst; clear HP.
-    assert (HS : forall pos, h_streams (save_if_keyed
-               {| h_streams := upd (h_streams h) ch (Some (s_add (s_new (h_fresh h)) id (Z.to_nat (po_size o)) (po_ver o) (po_vep o)));
-                  h_expires := upd (h_expires h) ch (Some (now_s h + secs (po_ttl o)));
-                  h_removes := touch_meta h ch (po_meta o); h_cache := h_cache h; h_now := h_now h;
-                  h_fresh := h_fresh h + 1; h_meta := h_meta h |} ch o pos) ch
-              = Some (s_add (s_new (h_fresh h)) id (Z.to_nat (po_size o)) (po_ver o) (po_vep o))).
-    { intros. unfold save_if_keyed, cache_save. destruct (po_key o =? 0); cbn [h_streams];
-        unfold upd; rewrite N.eqb_refl; reflexivity. }
-    rewrite HS. cbn [s_add s_new s_top s_epoch s_items].
-    repeat split; auto.
-    + intros; discriminate.
-    + unfold trim. cbn [app length].
-      destruct (Z.to_nat (po_size o)) as [|n] eqn:En.
-      { unfold history_on in Hon. lia. }
-      replace (1 - S n)%nat with 0%nat by lia. cbn [skipn]. exists []. reflexivity.
+    match goal with |- context [save_if_keyed ?H ch o ?P] => destruct (save_streams H ch o P) as (-> & _) end.
+    cbn [book h_streams]. unfold upd. rewrite N.eqb_refl.
+    cbn [s_add s_new s_top s_epoch s_items].
+    repeat split; auto; try (intros; discriminate); try (apply (TRIM []); auto).
 Qed.
 
 (* history = the retained suffix filtered by since, limit and direction *)
@@ -468,14 +603,12 @@ Theorem history_exact : forall h ch s f m,
   snd (hub_get h ch f m) = OHist (spec_filter (s_top s) (s_items s) f) (s_top s) (s_epoch s) /\
   wf_stream s.
 Proof.
-  intros h ch s f m (now & meta & ops & ->) Hs Hok.
-  pose proof (run_R ops _ _ (R_init now meta)) as (HC & _).
-  specialize (HC ch). unfold crel in HC. rewrite Hs in HC.
-  destruct (sp_chan _ ch) as [c|]; [|tauto]. destruct HC as (Hrel & _).
-  split; [|eapply srel_wf; eauto].
+  intros h ch s f m Hr Hs Hok.
+  pose proof (reachable_wf h Hr ch s Hs) as Hwf.
+  split; [|exact Hwf].
   unfold hub_get. rewrite Hs. cbn [snd].
-  pose proof (srel_get s c f Hrel Hok) as G. unfold get_items in G. rewrite G.
-  destruct Hrel as (-> & _ & _ & _ & _ & ->). reflexivity.
+  pose proof (srel_get s (achan_of s) f (wf_srel s Hwf) Hok) as G. unfold get_items in G. rewrite G.
+  destruct (wf_srel s Hwf) as (_ & _ & _ & _ & _ & E). rewrite <- E. reflexivity.
 Qed.
 
 (* a history read of an unknown channel creates its metadata: empty, top 0, fresh epoch *)
@@ -488,14 +621,24 @@ Proof.
   split; auto. unfold upd. rewrite N.eqb_refl. reflexivity.
 Qed.
 
+Lemma sweep1_fires_due : forall now e,
+  fst (sweep1 now e) = true -> exists d q, e = Some (d, q) /\ d <= now /\ q <= now.
+Proof.
+  intros now [[d q]|]; cbn [sweep1 fst]; [|discriminate].
+  destruct (q <=? now) eqn:E1; [destruct (d <=? now) eqn:E2|]; cbn [fst]; try discriminate.
+  intros _. exists d, q. repeat split; auto; lia.
+Qed.
+
 (* the epoch of a channel changes only when its metadata is discarded:
    no step changes the epoch of a stream that survives it, and the only step
-   that drops a stream is SweepRemove of a channel whose meta deadline is due *)
+   that drops a stream is SweepRemove of a channel whose metadata deadline
+   (and queued sweep instant) has passed *)
 Theorem epoch_stable : forall h o ch s,
   h_streams h ch = Some s ->
   match h_streams (fst (step h o)) ch with
   | Some s' => s_epoch s' = s_epoch s /\ s_top s <= s_top s'
-  | None => o = SweepRemove /\ due h (h_removes h ch) = true
+  | None => o = SweepRemove /\
+            exists d q, h_rem h ch = Some (d, q) /\ d <= now_s h /\ q <= now_s h
   end.
 Proof.
   intros h o ch s Hs.
@@ -503,19 +646,20 @@ Proof.
   - unfold publish, publish_with.
     destruct (if po_key po =? 0 then None else cache_get h c (po_key po)) as [[? ?]|].
     { cbn [fst]. rewrite Hs. split; auto. lia. }
-    assert (SK : forall h0 pos, h_streams (save_if_keyed h0 c po pos) = h_streams h0).
-    { intros. unfold save_if_keyed, cache_save. destruct (po_key po =? 0); reflexivity. }
     destruct (history_on po).
-    2:{ cbn [fst]. rewrite SK, Hs. split; auto. lia. }
+    2:{ cbn [fst]. destruct (save_streams h c po (0, 0)) as (-> & _). rewrite Hs. split; auto. lia. }
     unfold hub_add.
     destruct (h_streams h c) as [s0|] eqn:E0.
     + destruct (ver_skip s0 po); cbn [fst].
       * rewrite Hs. split; auto. lia.
-      * rewrite SK. cbn [h_streams]. unfold upd. destruct (ch =? c) eqn:E.
+      * match goal with |- context [save_if_keyed ?H c po ?P] => destruct (save_streams H c po P) as (-> & _) end.
+        cbn [book h_streams]. unfold upd. destruct (ch =? c) eqn:E.
         -- assert (ch = c) by lia. subst c. rewrite Hs in E0. inversion E0; subst s0.
            cbn [s_add s_epoch s_top]. split; auto. lia.
         -- rewrite Hs. split; auto. lia.
-    + cbn [fst]. rewrite SK. cbn [h_streams]. unfold upd. destruct (ch =? c) eqn:E.
+    + cbn [fst].
+      match goal with |- context [save_if_keyed ?H c po ?P] => destruct (save_streams H c po P) as (-> & _) end.
+      cbn [book h_streams]. unfold upd. destruct (ch =? c) eqn:E.
       * assert (ch = c) by lia. subst c. congruence.
       * rewrite Hs. split; auto. lia.
   - unfold hub_get. destruct (h_streams h c) as [s0|] eqn:E0; cbn [fst h_streams].
@@ -531,9 +675,11 @@ Proof.
     + rewrite Hs. split; auto. lia.
   - cbn [advance h_streams]. rewrite Hs. split; auto. lia.
   - cbn [sweep_expire h_streams]. rewrite Hs.
-    destruct (due h (h_expires h ch)); cbn [s_clear s_epoch s_top]; split; auto; lia.
+    destruct (fst (sweep1 (now_s h) (h_exp h ch))); cbn [s_clear s_epoch s_top]; split; auto; lia.
   - cbn [sweep_remove h_streams]. rewrite Hs.
-    destruct (due h (h_removes h ch)) eqn:E; auto. split; auto. lia.
+    destruct (fst (sweep1 (now_s h) (h_rem h ch))) eqn:E.
+    + split; auto. apply sweep1_fires_due; auto.
+    + split; auto. lia.
   - cbn [sweep_cache h_streams]. rewrite Hs. split; auto. lia.
 Qed.
 
@@ -555,7 +701,7 @@ Proof.
       * exists s. repeat split; auto.
     + exists s. repeat split; auto.
   - cbn [sweep_expire h_streams]. rewrite Hs.
-    destruct (due h (h_expires h ch)).
+    destruct (fst (sweep1 (now_s h) (h_exp h ch))).
     + eexists; split; [reflexivity|]. cbn. repeat split; auto.
     + exists s. repeat split; auto.
 Qed.
@@ -571,22 +717,19 @@ Proof.
   - unfold publish, publish_with.
     destruct (if po_key po =? 0 then None else cache_get h c (po_key po)) as [[? ?]|].
     { cbn [fst]. apply HB. }
-    assert (SK : forall h0 pos, h_streams (save_if_keyed h0 c po pos) = h_streams h0 /\
-                                h_fresh (save_if_keyed h0 c po pos) = h_fresh h0).
-    { intros. unfold save_if_keyed, cache_save. destruct (po_key po =? 0); split; reflexivity. }
     destruct (history_on po).
-    2:{ cbn [fst]. destruct (SK h (0, 0)) as (-> & ->). apply HB. }
+    2:{ cbn [fst]. destruct (save_streams h c po (0, 0)) as (-> & ->). apply HB. }
     unfold hub_add.
     destruct (h_streams h c) as [s0|] eqn:E0.
     + destruct (ver_skip s0 po); cbn [fst]; [apply HB|].
-      match goal with |- context [save_if_keyed ?H c po ?P] => destruct (SK H P) as (-> & ->) end.
-      cbn [h_streams h_fresh]. unfold upd. destruct (ch =? c) eqn:E.
+      match goal with |- context [save_if_keyed ?H c po ?P] => destruct (save_streams H c po P) as (-> & ->) end.
+      cbn [book h_streams h_fresh]. unfold upd. destruct (ch =? c) eqn:E.
       * assert (ch = c) by lia. subst c. intros X; inversion X; subst s.
         cbn [s_add s_epoch]. eapply HB; eauto.
       * apply HB.
     + cbn [fst].
-      match goal with |- context [save_if_keyed ?H c po ?P] => destruct (SK H P) as (-> & ->) end.
-      cbn [h_streams h_fresh]. unfold upd. destruct (ch =? c) eqn:E.
+      match goal with |- context [save_if_keyed ?H c po ?P] => destruct (save_streams H c po P) as (-> & ->) end.
+      cbn [book h_streams h_fresh]. unfold upd. destruct (ch =? c) eqn:E.
       * intros X; inversion X; subst s. cbn [s_add s_new s_epoch]. lia.
       * intros X. apply HB in X. lia.
   - unfold hub_get. destruct (h_streams h c) as [s0|] eqn:E0; cbn [fst h_streams h_fresh].
@@ -601,24 +744,52 @@ Proof.
     + apply HB.
   - cbn [advance h_streams h_fresh]. apply HB.
   - cbn [sweep_expire h_streams h_fresh].
-    destruct (due h (h_expires h ch)); [|apply HB].
+    destruct (fst (sweep1 (now_s h) (h_exp h ch))); [|apply HB].
     destruct (h_streams h ch) as [s0|] eqn:E0; [|discriminate].
     intros X; inversion X; subst s. cbn [s_clear s_epoch]. eapply HB; eauto.
   - cbn [sweep_remove h_streams h_fresh].
-    destruct (due h (h_removes h ch)); [discriminate|apply HB].
+    destruct (fst (sweep1 (now_s h) (h_rem h ch))); [discriminate|apply HB].
   - cbn [sweep_cache h_streams h_fresh]. apply HB.
 Qed.
 
 Theorem reachable_epochs_below : forall h, reachable h -> epochs_below h.
 Proof.
-  intros h (now & meta & ops & ->).
-  assert (G : forall ops h0, epochs_below h0 -> epochs_below (fst (run h0 ops))).
-  { unfold run. induction ops0 as [|o r IH]; intros h0 H0; cbn [run_with].
-    - exact H0.
-    - pose proof (epochs_below_step h0 o H0) as H1.
-      destruct (step h0 o) as [h1 x]. cbn [fst] in H1. specialize (IH h1 H1).
-      destruct (run_with step h1 r) as [h2 xs]. exact IH. }
-  apply G. intros ch s X. cbn in X. discriminate.
+  intros h (now & meta & ops & ->). apply (run_inv epochs_below epochs_below_step).
+  intros ch s X. cbn in X. discriminate.
+Qed.
+
+(* -------------------------------------- publishing after expiry / removal *)
+
+Lemma publish_plain : forall h ch id o s,
+  po_key o = 0 -> po_ver o = 0 -> history_on o = true -> h_streams h ch = Some s ->
+  snd (publish h ch id o) =
+  OPub (s_top s + 1) (s_epoch s) 0 [mkDeliv ch id (s_top s + 1) (s_top s + 1) (s_epoch s)].
+Proof.
+  intros h ch id o s Hk Hv Hon Hs.
+  unfold publish, publish_with, hub_add. rewrite Hk, Hon, Hs. cbn [N.eqb].
+  unfold ver_skip. rewrite Hv. cbn [N.ltb N.compare andb snd s_add s_top s_epoch]. reflexivity.
+Qed.
+
+Theorem publish_after_clear_continues : forall h o ch s id po,
+  (exists c, o = Remove c) \/ o = SweepExpire ->
+  h_streams h ch = Some s ->
+  po_key po = 0 -> po_ver po = 0 -> history_on po = true ->
+  snd (publish (fst (step h o)) ch id po) =
+  OPub (s_top s + 1) (s_epoch s) 0 [mkDeliv ch id (s_top s + 1) (s_top s + 1) (s_epoch s)].
+Proof.
+  intros h o ch s id po Ho Hs Hk Hv Hon.
+  destruct (clear_keeps_position h o ch s Ho Hs) as (s' & Hs' & T & E & _).
+  rewrite (publish_plain _ ch id po s' Hk Hv Hon Hs'). rewrite T, E. reflexivity.
+Qed.
+
+(* after the metadata has been discarded the channel starts afresh:
+   offset 1 in a new epoch *)
+Theorem publish_after_discard_restarts : forall h ch id po,
+  h_streams h ch = None -> po_key po = 0 -> history_on po = true ->
+  snd (publish h ch id po) = OPub 1 (h_fresh h) 0 [mkDeliv ch id 1 1 (h_fresh h)].
+Proof.
+  intros h ch id po Hs Hk Hon.
+  unfold publish, publish_with, hub_add. rewrite Hk, Hon, Hs. cbn [N.eqb]. reflexivity.
 Qed.
 
 (* ------------------------------------------- decidable equality of outputs *)
@@ -667,37 +838,3 @@ Definition outs_eqb : list out -> list out -> bool := list_eqb out_eqb.
 
 Lemma outs_eqb_eq : forall a b, outs_eqb a b = true <-> a = b.
 Proof. apply list_eqb_eq. apply out_eqb_eq. Qed.
-
-(* -------------------------------------- publishing after expiry / removal *)
-
-Lemma publish_plain : forall h ch id o s,
-  po_key o = 0 -> po_ver o = 0 -> history_on o = true -> h_streams h ch = Some s ->
-  snd (publish h ch id o) =
-  OPub (s_top s + 1) (s_epoch s) 0 [mkDeliv ch id (s_top s + 1) (s_top s + 1) (s_epoch s)].
-Proof.
-  intros h ch id o s Hk Hv Hon Hs.
-  unfold publish, publish_with, hub_add. rewrite Hk, Hon, Hs. cbn [N.eqb].
-  unfold ver_skip. rewrite Hv. cbn [N.ltb N.compare andb snd s_add s_top s_epoch]. reflexivity.
-Qed.
-
-Theorem publish_after_clear_continues : forall h o ch s id po,
-  (exists c, o = Remove c) \/ o = SweepExpire ->
-  h_streams h ch = Some s ->
-  po_key po = 0 -> po_ver po = 0 -> history_on po = true ->
-  snd (publish (fst (step h o)) ch id po) =
-  OPub (s_top s + 1) (s_epoch s) 0 [mkDeliv ch id (s_top s + 1) (s_top s + 1) (s_epoch s)].
-Proof.
-  intros h o ch s id po Ho Hs Hk Hv Hon.
-  destruct (clear_keeps_position h o ch s Ho Hs) as (s' & Hs' & T & E & _).
-  rewrite (publish_plain _ ch id po s' Hk Hv Hon Hs'). rewrite T, E. reflexivity.
-Qed.
-
-(* after the metadata has been discarded the channel starts afresh:
-   offset 1 in a new epoch *)
-Theorem publish_after_discard_restarts : forall h ch id po,
-  h_streams h ch = None -> po_key po = 0 -> history_on po = true ->
-  snd (publish h ch id po) = OPub 1 (h_fresh h) 0 [mkDeliv ch id 1 1 (h_fresh h)].
-Proof.
-  intros h ch id po Hs Hk Hon.
-  unfold publish, publish_with, hub_add. rewrite Hk, Hon, Hs. cbn [N.eqb]. reflexivity.
-Qed.
